@@ -171,10 +171,8 @@ def setup(ctx):
     _CTX[0] = ctx
     B = taps.mod("menpo.base")
     L = taps.mod("menpo.landmark.base")
-    LB = taps.mod("menpo.shape.labelled").LabelledPointUndirectedGraph
-    HA = taps.mod("menpo.transform.homogeneous.base").HomogFamilyAlignment
-    for owner in (B.Copyable, B.LazyList, L.LandmarkManager, LB, HA):
-        taps.tap(ctx, owner, "copy", CopyMonitor(owner))
+    owners = taps.tap_definers(ctx, "copy", lambda c: CopyMonitor(c), base=B.Copyable)
+    ctx.see("tapped_copy_definers", sorted(c.__name__ for c in owners))
     taps.tap(ctx, L.LandmarkManager, "__setitem__", SetItemMonitor())
     icontract.invariant(lm_invariant, error=InvariantBroken)(L.LandmarkManager)
     # the owner-side setter is a property: wrap its fset
@@ -416,13 +414,18 @@ def w_manager_history(ctx, rng, i):
     assigned = []   # (value object handed in, name)
     for step in range(n_ops):
         op = ["set", "set", "set", "get", "delete", "iterate", "copy", "assign_to_owner", "transform_owner", "none_key",
-              "edit_assigned", "bad_dims", "bad_type", "edit_stored", "set_own_group", "set_own_group"][rng.integers(0, 16)]
+              "edit_assigned", "bad_dims", "bad_type", "edit_stored", "set_own_group", "set_own_group", "assign_own_manager"][rng.integers(0, 17)]
         if op == "set":
             name = NAMES[rng.integers(0, len(NAMES))]
             val = gen.shape(rng, None, d=d, n=int(rng.integers(3, 7)))
             lm[name] = val
             model[name] = digest(val)
             assigned.append((val, name))
+        elif op == "assign_own_manager":
+            # fetch-edit-assign-back on the owner side: the owner keeps equal landmarks
+            h = owner.landmarks
+            owner.landmarks = h
+            lm = owner.landmarks
         elif op == "set_own_group" and model:
             # a group fetched from this very manager assigned back under another (or the same) name: still an owned copy
             src_name = list(model)[rng.integers(0, len(model))]
